@@ -17,6 +17,13 @@ pub struct Case {
     pub shrink: bool,
     /// milestone interval of the store that is saved
     pub milestone: u8,
+    /// milestone interval of the configuration the file is loaded with (0 = the same as when saving): a
+    /// performance-only setting, and the indices come from the file, so it must not change anything
+    #[serde(default)]
+    pub load_milestone: u8,
+    /// the store has a working directory and is saved and loaded under a relative file name
+    #[serde(default)]
+    pub relative: bool,
 }
 
 /// a battery of searches / queries whose answers must be identical before and after
@@ -120,7 +127,7 @@ impl Property for C11 {
         "C11"
     }
     fn rule(&self) -> String {
-        "case = final store of a C01 history (removals, text protection, complex selectors, milestone interval 0/1/3/100) saved with a .cbor name and loaded again (default config or shrink_to_fit). Oracle: the complete observation with handles (all items, forward views, every reverse lookup) is equal; the raw dump of every reverse index, id map, key->data map, position index and byte->char map is equal entry by entry; the reloaded store passes the C01 self-consistency battery; a battery of searches and queries (find_text, byte/char conversion, positions, segmentation, related_text under 8 operators, find_data, 6 queries) gives identical answers; a second save/load generation yields the same observation (byte identity of the file is not required: id maps are hash maps). Non-trivial = the store has a gap or was text-protected, and has at least one complex selector; distinct = distinct case JSON.".into()
+        "case = final store of a C01 history (removals, text protection, complex selectors, milestone interval 0/1/3/100) saved with a .cbor name (absolute, or relative to the store's working directory) and loaded again (default config or shrink_to_fit, the same or another milestone interval). Oracle: the complete observation with handles (all items, forward views, every reverse lookup) is equal; the raw dump of every reverse index, id map, key->data map, position index and byte->char map is equal entry by entry; the reloaded store passes the C01 self-consistency battery; a battery of searches and queries (find_text, byte/char conversion, positions, segmentation, related_text under 8 operators, find_data, 6 queries) gives identical answers; a second save/load generation yields the same observation (byte identity of the file is not required: id maps are hash maps). Non-trivial = the store has a gap or was text-protected, and has at least one complex selector; distinct = distinct case JSON.".into()
     }
     fn cases(&self, tier: Tier) -> u64 {
         tier.pick(500_000, 4_000_000)
@@ -134,8 +141,8 @@ impl Property for C11 {
             complex_weight: 3,
             ..HistCfg::default()
         };
-        (history_strategy(cfg), any::<bool>(), 0u8..4)
-            .prop_map(|(hist, shrink, milestone)| Case { hist, shrink, milestone })
+        (history_strategy(cfg), any::<bool>(), 0u8..4, prop_oneof![3 => Just(0u8), 4 => 1u8..6], proptest::bool::weighted(0.3))
+            .prop_map(|(hist, shrink, milestone, load_milestone, relative)| Case { hist, shrink, milestone, load_milestone, relative })
             .boxed()
     }
 
@@ -143,7 +150,15 @@ impl Property for C11 {
         let mut out = Outcome::new();
         // build with the requested milestone interval
         let interval = [0usize, 1, 3, 100][case.milestone as usize % 4];
-        let mut m = Machine::with_config(case.hist.hostile, Config::default().with_milestone_interval(interval));
+        let dir = TempDir::new("c11");
+        let workdir = dir.0.to_string_lossy().to_string();
+        let build_cfg = if case.relative {
+            out.label("relative_filename_in_workdir");
+            Config::default().with_milestone_interval(interval).with_workdir(workdir.clone())
+        } else {
+            Config::default().with_milestone_interval(interval)
+        };
+        let mut m = Machine::with_config(case.hist.hostile, build_cfg);
         for op in &case.hist.ops {
             let s = m.apply(op);
             if s.skipped.is_some() {
@@ -180,8 +195,7 @@ impl Property for C11 {
             out.label("range_compressed");
         }
         let set_dumps: Vec<_> = store.datasets().map(|d| d.as_ref().verif_dump()).collect();
-        let dir = TempDir::new("c11");
-        let f = dir.path("x.store.stam.cbor");
+        let f = if case.relative { "x.store.stam.cbor".to_string() } else { dir.path("x.store.stam.cbor") };
         match catch(|| store.to_file(&f)) {
             Ok(Ok(())) => {}
             Ok(Err(e)) => {
@@ -193,8 +207,23 @@ impl Property for C11 {
                 return out;
             }
         }
-        let cfg = if case.shrink { Config::default().with_shrink_to_fit(true) } else { Config::default() };
+        let mut cfg = if case.shrink { Config::default().with_shrink_to_fit(true) } else { Config::default() };
         out.label(if case.shrink { "load_shrink" } else { "load_default" });
+        if case.load_milestone > 0 {
+            let li = [1usize, 2, 3, 7, 0][(case.load_milestone as usize - 1) % 5];
+            cfg = cfg.with_milestone_interval(li);
+            out.label("load_other_milestone_interval");
+        } else {
+            cfg = cfg.with_milestone_interval(interval);
+        }
+        if case.relative {
+            cfg = cfg.with_workdir(workdir.clone());
+            if !std::path::Path::new(&dir.path("x.store.stam.cbor")).exists() {
+                out.fail("save", "relative-name-not-in-workdir", format!("to_file(\"x.store.stam.cbor\") on a store with working directory {} did not write the file there", workdir));
+                let _ = std::fs::remove_file("x.store.stam.cbor");
+                return out;
+            }
+        }
         let store2 = match catch(|| AnnotationStore::from_file(&f, cfg)) {
             Ok(Ok(s)) => s,
             Ok(Err(e)) => {
